@@ -114,6 +114,13 @@ def interaction_groups():
             for rep in range(3):
                 g.append({'op': 'save', 'content': 'INTERACTION', 'make_kw': {}, 'kind': kind, 'kw': dict(cols)})
         groups.append(g)
+    groups.append([{'op': 'make', 'fn': 'make', 'content': c, 'kw': {}} for c in (1, True, 0, False, '1', b'1', 'True', 10, -1, 1, True, False, 0)])
+    for enc in ('utf-16', 'utf-8-sig', 'iso2022_jp'):
+        groups.append([{'op': 'make', 'fn': 'make', 'content': c, 'kw': {'encoding': enc}}
+                       for c in ('Käse 2024', 'abc', '点茗€', '点茗', 'Käse 2024', 'abc', '点茗', 'x', 'Käse 2024')])
+    groups.append([{'op': 'make', 'fn': 'make', 'content': c, 'kw': dict(kw)} for c in ('abc', 'Grüße') for rep in range(2)
+                   for kw in ({'eci': True, 'encoding': 'utf-16'}, {'eci': True, 'encoding': 'cp850'}, {'eci': True, 'encoding': 'utf-8'},
+                              {'eci': True, 'encoding': 'gb2312'}, {'eci': True})])
     groups.append([{'op': 'save', 'content': 'INTERACTION', 'make_kw': {'error': 'Q'}, 'kind': kind, 'kw': dict(skw)}
                    for kind in ('pdf', 'eps', 'txt', 'xpm', 'pam') for skw in ({}, {'scale': 2}, {'border': 1})])
     k = 900000
